@@ -21,6 +21,50 @@ def _shape(d: Any) -> tuple:
     return ()
 
 
+def _bshape(*shapes: tuple) -> tuple:
+    "numpy broadcasting of shapes (ValueError when they do not broadcast)"
+    n = max((len(s) for s in shapes), default=0)
+    out = []
+    for i in range(n):
+        dims = {s[len(s) - n + i] for s in shapes if len(s) - n + i >= 0}
+        big = dims - {1}
+        if len(big) > 1:
+            raise ValueError("operands could not be broadcast together with shapes " + " ".join(str(s) for s in shapes))
+        out.append(big.pop() if big else (1 if dims else 1))
+    return tuple(out)
+
+
+def _get_at(d, idx):
+    for i in idx:
+        d = d[i]
+    return d
+
+
+def _build(shape: tuple, f):
+    "nested list of the given shape with f(index tuple) at the leaves (a scalar for shape ())"
+    def rec(prefix, sh):
+        if not sh:
+            return f(tuple(prefix))
+        return [rec(prefix + [i], sh[1:]) for i in range(sh[0])]
+    return rec([], list(shape))
+
+
+def _elementwise(f, *operands):
+    "apply f elementwise with numpy broadcasting; operands are Arr / nested lists / tuples / scalars; returns an Arr (or a scalar for 0-d)"
+    datas = [o.data if isinstance(o, Arr) else (_to_data(o) if isinstance(o, (list, tuple)) else o) for o in operands]
+    shapes = [_shape(d) for d in datas]
+    out_shape = _bshape(*shapes)
+
+    def leaf(idx):
+        vals = []
+        for d, sh in zip(datas, shapes):
+            sub = idx[len(idx) - len(sh):] if sh else ()
+            vals.append(_get_at(d, [0 if n_ == 1 else i for i, n_ in zip(sub, sh)]))
+        return f(*vals)
+    r = _build(out_shape, leaf)
+    return Arr(r) if isinstance(r, list) else r
+
+
 class Arr:
     def __init__(self, data: Any) -> None:
         self.data = data
@@ -63,21 +107,7 @@ class Arr:
 
     # -- elementwise comparisons / logic (scalar or last-axis vector broadcast), enough for bounds masks
     def _zip(self, other, f):
-        o = other.data if isinstance(other, Arr) else (list(other) if isinstance(other, (tuple, list)) else other)
-
-        def rec(d, o_):
-            if isinstance(d, list):
-                if isinstance(o_, list):
-                    if _shape(o_) == _shape(d):
-                        return [rec(x, y) for x, y in zip(d, o_)]
-                    if len(_shape(o_)) < len(_shape(d)):
-                        return [rec(x, o_) for x in d]  # broadcast over the leading axis
-                    raise ValueError(f"operands could not be broadcast together with shapes {_shape(d)} {_shape(o_)}")
-                return [rec(x, o_) for x in d]
-            if isinstance(o_, list):
-                raise ValueError("operands could not be broadcast together")
-            return f(d, o_)
-        return Arr(rec(self.data, o))
+        return _elementwise(f, self, other)
 
     def __lt__(self, o):
         return self._zip(o, lambda a, b: a < b)
@@ -109,16 +139,7 @@ class Arr:
             return f(full(x) for x in d) if isinstance(d, list) else bool(d)
         if axis is None:
             return full(self.data)
-        nd = self.ndim
-        if axis not in (-1, nd - 1):
-            raise TypeError("only reductions along the last axis are modelled")
-
-        def last(d, depth):
-            if depth == nd - 1:
-                return f(bool(x) for x in d)
-            return [last(x, depth + 1) for x in d]
-        r = last(self.data, 0)
-        return Arr(r) if isinstance(r, list) else r
+        return self.reduce_axis(lambda xs: f(bool(x) for x in xs), axis)
 
     def all(self, *a, **k):
         return self._reduce(all, a, k)
@@ -126,17 +147,151 @@ class Arr:
     def any(self, *a, **k):
         return self._reduce(any, a, k)
 
-    def sum(self, *_a, **_k):
-        return sum(self.data)
+    def sum(self, *a, **k):
+        axis = k.get("axis", a[0] if a else None)
+        if axis is None and self.ndim <= 1:
+            return sum(self.data)
+        return self.reduce_axis(lambda xs: sum(xs), axis)
 
     def cumsum(self, *_a, **_k):
         return Arr(list(itertools.accumulate(self.data)))
 
-    def max(self, *_a, **_k):
-        return max(self.data)
+    def max(self, *a, **k):
+        axis = k.get("axis", a[0] if a else None)
+        if axis is None and self.ndim <= 1:
+            return max(self.data)
+        return self.reduce_axis(lambda xs: max(xs), axis)
 
-    def min(self, *_a, **_k):
-        return min(self.data)
+    def min(self, *a, **k):
+        axis = k.get("axis", a[0] if a else None)
+        if axis is None and self.ndim <= 1:
+            return min(self.data)
+        return self.reduce_axis(lambda xs: min(xs), axis)
+
+    # -- arithmetic on numeric cells (coordinates, deltas); a symbolic cell makes the python operator fail, which the evaluator reports as undecided
+    def __add__(self, o):
+        return _elementwise(lambda a, b: a + b, self, o)
+
+    def __radd__(self, o):
+        return _elementwise(lambda a, b: b + a, self, o)
+
+    def __sub__(self, o):
+        return _elementwise(lambda a, b: a - b, self, o)
+
+    def __rsub__(self, o):
+        return _elementwise(lambda a, b: b - a, self, o)
+
+    def __mul__(self, o):
+        return _elementwise(lambda a, b: a * b, self, o)
+
+    def __rmul__(self, o):
+        return _elementwise(lambda a, b: b * a, self, o)
+
+    def __floordiv__(self, o):
+        return _elementwise(lambda a, b: a // b, self, o)
+
+    def __mod__(self, o):
+        return _elementwise(lambda a, b: a % b, self, o)
+
+    def __neg__(self):
+        return _elementwise(lambda a: -a, self)
+
+    def __abs__(self):
+        return _elementwise(lambda a: abs(a), self)
+
+    def __xor__(self, o):
+        return _elementwise(lambda a, b: bool(a) != bool(b), self, o)
+
+    @property
+    def size(self) -> int:
+        n = 1
+        for s_ in self.shape:
+            n *= s_
+        return n
+
+    @property
+    def T(self):
+        if self.ndim != 2:
+            raise TypeError("only 2-d transposition is modelled")
+        return Arr([list(r) for r in zip(*self.data)]) if self.data and self.data[0] else Arr([])
+
+    def flat_list(self) -> list:
+        out = []
+
+        def rec(d):
+            if isinstance(d, list):
+                for x in d:
+                    rec(x)
+            else:
+                out.append(d)
+        rec(self.data)
+        return out
+
+    def flatten(self):
+        return Arr(self.flat_list())
+
+    ravel = flatten
+
+    def item(self):
+        if self.size != 1:
+            raise ValueError("can only convert an array of size 1 to a Python scalar")
+        return self.flat_list()[0]
+
+    def __int__(self):
+        return int(self.item())
+
+    def __index__(self):
+        return int(self.item())
+
+    def truth(self) -> bool:
+        "numpy truthiness: empty -> False, one element -> its truth, otherwise ValueError"
+        if self.size == 0:
+            return False
+        if self.size == 1:
+            return bool(self.flat_list()[0])
+        raise ValueError("The truth value of an array with more than one element is ambiguous. Use a.any() or a.all()")
+
+    def reshape(self, *shape):
+        if len(shape) == 1 and isinstance(shape[0], (tuple, list)):
+            shape = tuple(shape[0])
+        flat = self.flat_list()
+        shape = list(shape)
+        if shape.count(-1) == 1:
+            known = 1
+            for s_ in shape:
+                if s_ != -1:
+                    known *= s_
+            if known == 0 or len(flat) % known:
+                raise ValueError(f"cannot reshape array of size {len(flat)} into shape {tuple(shape)}")
+            shape[shape.index(-1)] = len(flat) // known
+        n = 1
+        for s_ in shape:
+            n *= s_
+        if n != len(flat):
+            raise ValueError(f"cannot reshape array of size {len(flat)} into shape {tuple(shape)}")
+        it = iter(flat)
+        r = _build(tuple(shape), lambda idx: next(it))
+        return Arr(r) if isinstance(r, list) else r
+
+    def reduce_axis(self, f, axis=None):
+        "f over all cells (axis None) or along one axis; f takes a list of cells"
+        if axis is None:
+            return f(self.flat_list())
+        nd = self.ndim
+        if axis < 0:
+            axis += nd
+        if not 0 <= axis < nd:
+            raise ValueError(f"axis {axis} is out of bounds for array of dimension {nd}")
+        sh = self.shape
+        out_shape = sh[:axis] + sh[axis + 1:]
+        r = _build(out_shape, lambda idx: f([_get_at(self.data, idx[:axis] + (k,) + idx[axis:]) for k in range(sh[axis])]))
+        return Arr(r) if isinstance(r, list) else r
+
+    def argmax(self, axis=None, **_k):
+        return self.reduce_axis(lambda xs: max(range(len(xs)), key=lambda i: (xs[i], -i)), axis)
+
+    def argmin(self, axis=None, **_k):
+        return self.reduce_axis(lambda xs: min(range(len(xs)), key=lambda i: (xs[i], i)), axis)
 
     # -- indexing
     @staticmethod
@@ -148,7 +303,116 @@ class Arr:
             ks = ks[:i] + [slice(None)] * max(fill, 0) + ks[i + 1:]
         return ks
 
+    # -- general (numpy "advanced") indexing: integer arrays / lists, boolean masks, None (newaxis) mixed with ints and slices
+    @staticmethod
+    def _is_advanced(key) -> bool:
+        ks = key if isinstance(key, tuple) else (key,)
+        return any(k is None or isinstance(k, (list, Arr)) for k in ks)
+
+    def _plan(self, key):
+        """(output shape, function output index -> source index) following numpy: ints and integer arrays broadcast together to B; when they
+        are adjacent B takes their place, otherwise it comes first; a boolean mask is the tuple of its nonzero index arrays"""
+        ks = list(key) if isinstance(key, tuple) else [key]
+        n_real = 0
+        for k in ks:
+            if k is None or k is Ellipsis:
+                continue
+            if isinstance(k, Arr) and k.size and isinstance(k.flat_list()[0], bool) or (isinstance(k, list) and k and isinstance(_flat(k)[0], bool)):
+                n_real += len(_shape(k.data if isinstance(k, Arr) else k))
+            else:
+                n_real += 1
+        if any(k is Ellipsis for k in ks):
+            i = ks.index(Ellipsis)
+            ks = ks[:i] + [slice(None)] * max(self.ndim - n_real, 0) + ks[i + 1:]
+        else:
+            ks = ks + [slice(None)] * max(self.ndim - n_real, 0)
+        sh = self.shape
+        entries = []   # ("slice", axis, positions) | ("new",) | ("adv", axis, Arr-or-int)
+        ax = 0
+        for k in ks:
+            if k is None:
+                entries.append(("new",))
+                continue
+            if ax >= len(sh):
+                raise IndexError("too many indices for array")
+            if isinstance(k, slice):
+                entries.append(("slice", ax, list(range(*k.indices(sh[ax])))))
+                ax += 1
+            elif isinstance(k, bool) or isinstance(k, (float, str)):
+                raise TypeError(f"unsupported index {k!r}")
+            elif isinstance(k, int):
+                entries.append(("adv", ax, k))
+                ax += 1
+            else:
+                d = k.data if isinstance(k, Arr) else _to_data(k)
+                fl = _flat(d)
+                if fl and isinstance(fl[0], bool):
+                    msh = _shape(d)
+                    if msh != sh[ax:ax + len(msh)]:
+                        raise IndexError(f"boolean index did not match indexed array: mask shape {msh}, array shape {sh}")
+                    hits = [idx for idx in itertools.product(*[range(n_) for n_ in msh]) if _get_at(d, idx) is True]
+                    if any(_get_at(d, idx) not in (True, False) for idx in itertools.product(*[range(n_) for n_ in msh])):
+                        raise TypeError("mask with non-boolean cells")
+                    for j in range(len(msh)):
+                        entries.append(("adv", ax + j, Arr([h[j] for h in hits])))
+                    ax += len(msh)
+                else:
+                    if any(not isinstance(x, int) or isinstance(x, bool) for x in fl):
+                        raise IndexError("arrays used as indices must be of integer (or boolean) type")
+                    entries.append(("adv", ax, Arr(d) if isinstance(d, list) else d))
+                    ax += 1
+        adv = [i for i, e in enumerate(entries) if e[0] == "adv"]
+        has_array = any(isinstance(entries[i][2], Arr) for i in adv)
+        if not has_array:
+            # only ints: basic indexing (each int removes its axis)
+            B, adjacent = (), True
+        else:
+            B = _bshape(*[(entries[i][2].shape if isinstance(entries[i][2], Arr) else ()) for i in adv])
+            adjacent = adv == list(range(adv[0], adv[-1] + 1))
+        for i in adv:
+            e = entries[i]
+            vals = e[2].flat_list() if isinstance(e[2], Arr) else [e[2]]
+            for v in vals:
+                if not -sh[e[1]] <= v < sh[e[1]]:
+                    raise IndexError(f"index {v} is out of bounds for axis {e[1]} with size {sh[e[1]]}")
+        out_dims = []   # ("B", j) | ("slice", entry index) | ("new",)
+        placed = False
+        if has_array and not adjacent:
+            out_dims += [("B", j) for j in range(len(B))]
+            placed = True
+        for i, e in enumerate(entries):
+            if e[0] == "adv":
+                if has_array and not placed:
+                    out_dims += [("B", j) for j in range(len(B))]
+                    placed = True
+            elif e[0] == "slice":
+                out_dims.append(("slice", i))
+            else:
+                out_dims.append(("new",))
+        out_shape = tuple(B[d[1]] if d[0] == "B" else (len(entries[d[1]][2]) if d[0] == "slice" else 1) for d in out_dims)
+
+        def src(idx):
+            b = tuple(i_ for i_, d in zip(idx, out_dims) if d[0] == "B")
+            sl = {d[1]: i_ for i_, d in zip(idx, out_dims) if d[0] == "slice"}
+            out = [None] * len(sh)
+            for i, e in enumerate(entries):
+                if e[0] == "slice":
+                    out[e[1]] = e[2][sl[i]]
+                elif e[0] == "adv":
+                    if isinstance(e[2], Arr):
+                        ash = e[2].shape
+                        sub = b[len(b) - len(ash):] if ash else ()
+                        out[e[1]] = _get_at(e[2].data, [0 if n_ == 1 else i_ for i_, n_ in zip(sub, ash)])
+                    else:
+                        out[e[1]] = e[2]
+            return out
+        return out_shape, src
+
     def __getitem__(self, key):
+        if self._is_advanced(key):
+            out_shape, src = self._plan(key)
+            r = _build(out_shape, lambda idx: _get_at(self.data, src(idx)))
+            return Arr(r) if isinstance(r, list) else r
         ks = self._norm_key(key, self.ndim)
 
         def get(d, ks):
@@ -170,7 +434,7 @@ class Arr:
         return self._zip(other, lambda a, b: a == b)
 
     def __setitem__(self, key, value) -> None:
-        if isinstance(key, Arr) and key.shape == self.shape[:key.ndim] and key.ndim >= 1:
+        if isinstance(key, Arr) and key.shape == self.shape[:key.ndim] and key.ndim >= 1 and not isinstance(value, (Arr, list, tuple)):
             # boolean mask store
             v = value.data if isinstance(value, Arr) else value
 
@@ -183,6 +447,19 @@ class Arr:
                     elif mm is not False:
                         raise TypeError("mask store with a non-boolean mask")
             put_mask(self.data, key.data)
+            return
+        if self._is_advanced(key):
+            out_shape, src = self._plan(key)
+            v = value.data if isinstance(value, Arr) else (_to_data(value) if isinstance(value, (list, tuple)) else value)
+            vsh = _shape(v)
+            if _bshape(vsh, out_shape) != out_shape:
+                raise ValueError(f"shape mismatch: value array of shape {vsh} could not be broadcast to indexing result of shape {out_shape}")
+            for idx in itertools.product(*[range(n_) for n_ in out_shape]):
+                sub = idx[len(idx) - len(vsh):] if vsh else ()
+                cell = _get_at(v, [0 if n_ == 1 else i_ for i_, n_ in zip(sub, vsh)]) if vsh else v
+                s_ = src(idx)
+                tgt = _get_at(self.data, s_[:-1])
+                tgt[s_[-1]] = cell
             return
         ks = self._norm_key(key, self.ndim)
         v = value.data if isinstance(value, Arr) else value
@@ -215,6 +492,19 @@ class Arr:
                     raise ValueError(f"could not broadcast input array from shape {_shape(v)} into shape {_shape(d[k])}")
                 d[k] = v
         put(self.data, ks, v)
+
+
+def _flat(d) -> list:
+    out = []
+
+    def rec(x):
+        if isinstance(x, list):
+            for y in x:
+                rec(y)
+        else:
+            out.append(x)
+    rec(d)
+    return out
 
 
 def _full(shape, fill):
@@ -265,7 +555,74 @@ def _pad(arr, pad_width, mode="constant", constant_values=0, **_k):
     return Arr(rows)
 
 
+def _where(cond, a=None, b=None):
+    if a is None and b is None:
+        raise TypeError("np.where with one argument is not modelled")
+    return _elementwise(lambda c, x, y: x if c else y, cond, a, b)
+
+
+def _arr(x):
+    return x if isinstance(x, Arr) else (Arr(_to_data(x)) if isinstance(x, (list, tuple)) else x)
+
+
+def _array_equal(a, b):
+    a, b = _arr(a), _arr(b)
+    if isinstance(a, Arr) != isinstance(b, Arr):
+        return False
+    if not isinstance(a, Arr):
+        return a == b
+    return a.shape == b.shape and a.flat_list() == b.flat_list()
+
+
+def _stack(xs, axis=0, **_k):
+    rows = [_to_data(x) for x in xs]
+    if axis in (0, None):
+        return Arr(rows)
+    a = Arr(rows)
+    if axis in (1, ) and a.ndim == 2 or axis == -1 and a.ndim == 2:
+        return a.T
+    raise TypeError("np.stack along this axis is not modelled")
+
+
+def _argwhere(a):
+    a = _arr(a)
+    sh = a.shape
+    return Arr([list(idx) for idx in itertools.product(*[range(n_) for n_ in sh]) if _get_at(a.data, idx)])
+
+
+def _meshgrid(*xs, indexing="xy", **_k):
+    if indexing != "ij" or len(xs) != 2:
+        raise TypeError("only np.meshgrid(a, b, indexing='ij') is modelled")
+    a, b = [list(_to_data(x)) if not isinstance(x, range) else list(x) for x in xs]
+    return [Arr([[x for _ in b] for x in a]), Arr([[y for y in b] for _ in a])]
+
+
+def _vstack(xs):
+    rows = []
+    for x in xs:
+        d = _to_data(x)
+        rows += d if d and isinstance(d[0], list) else [d]
+    return Arr(rows)
+
+
 MODELS = {
+    "np.ndindex": lambda *sh: list(itertools.product(*[range(int(n_)) for n_ in (sh[0] if len(sh) == 1 and isinstance(sh[0], (tuple, list)) else sh)])),
+    "np.meshgrid": _meshgrid,
+    "np.vstack": _vstack,
+    "np.abs": lambda x: abs(x) if not isinstance(x, (list, tuple)) else abs(_arr(x)),
+    "np.absolute": lambda x: abs(_arr(x)),
+    "np.argmax": lambda x, axis=None, **k: _arr(x).argmax(axis),
+    "np.argmin": lambda x, axis=None, **k: _arr(x).argmin(axis),
+    "np.where": _where,
+    "np.array_equal": _array_equal,
+    "np.arange": lambda *a, **k: Arr(list(range(*a))),
+    "np.min": lambda x, axis=None, **k: _arr(x).min(axis=axis),
+    "np.logical_or": lambda a, b: _arr(a) | b,
+    "np.logical_xor": lambda a, b: _arr(a) ^ b,
+    "np.zeros_like": lambda x, *a, **k: _elementwise(lambda c: 0, x),
+    "np.ones_like": lambda x, *a, **k: _elementwise(lambda c: 1, x),
+    "np.argwhere": _argwhere,
+    "np.count_nonzero": lambda x, **k: sum(1 for c in _arr(x).flat_list() if c),
     "np.pad": _pad,
     "np.empty": lambda shape, *a, **k: _full(shape, UNINIT),
     "np.zeros": lambda shape, *a, **k: _full(shape, 0),
@@ -273,12 +630,12 @@ MODELS = {
     "np.full": lambda shape, fill, *a, **k: _full(shape, fill),
     "np.array": lambda x, *a, **k: Arr(_to_data(x)) if isinstance(x, (list, tuple, Arr)) else x,
     "np.asarray": lambda x, *a, **k: Arr(_to_data(x)) if isinstance(x, (list, tuple, Arr)) else x,
-    "np.sum": lambda x, *a, **k: sum(_to_data(x)),
+    "np.sum": lambda x, *a, **k: _arr(x).sum(*a, **k) if isinstance(_arr(x), Arr) else x,
     "np.cumsum": lambda x, *a, **k: Arr(list(itertools.accumulate(_to_data(x)))),
     "np.split": _split,
     "np.concatenate": lambda xs, *a, **k: Arr([row for x in xs for row in _to_data(x)]),
-    "np.stack": lambda xs, *a, **k: Arr([_to_data(x) for x in xs]),
-    "np.max": lambda x, *a, **k: max(_to_data(x)),
+    "np.stack": _stack,
+    "np.max": lambda x, axis=None, **k: _arr(x).max(axis=axis),
     "np.all": lambda x, *a, **k: x.all(*a, **k) if isinstance(x, Arr) else all(x),
     "np.any": lambda x, *a, **k: x.any(*a, **k) if isinstance(x, Arr) else any(x),
     "np.logical_and": lambda a, b: a & b,
